@@ -32,6 +32,7 @@ mod p_c16;
 mod p_c17;
 mod p_c18;
 mod p_c19;
+mod p_c19r;
 mod p_c19s;
 mod p_c20;
 mod rng;
